@@ -557,6 +557,10 @@ func TestC23(t *testing.T) {
 		nDS = 0
 	}
 	for di := 0; di < nDS; di++ {
+		if c22WatchdogFired >= 3 {
+			r.Inconclusive("gave up after 3 statements hung inside the engine")
+			break
+		}
 		rg := r.Rand(di)
 		ds := c22GenDataset(rg, c22DSOpts{NumericOnly: true, NoJitter: true, Dense: rg.Bool()})
 		dir, err := os.MkdirTemp("", "c23")
@@ -582,6 +586,10 @@ func TestC23(t *testing.T) {
 			q.UnorderedSeries = true
 			class, detail, exp := c22Check(st, ds.Model, q)
 			fn := q.Cols[0].Func
+			if exp.Ambiguous == "watchdog" {
+				r.Inconclusive("query watchdog fired: " + q.String())
+				break
+			}
 			if exp.Ambiguous != "" {
 				r.Event("skipped_ambiguous", 1)
 				continue
@@ -618,6 +626,11 @@ func TestC23(t *testing.T) {
 		c23Reducers(r, rg, s)
 	}
 	r.Extra("excluded", excluded)
+	if c22WatchdogFired >= 3 {
+		// most of the budget was not evaluated: never report that as "held"
+		fmt.Printf("INCONCLUSIVE property=C23 gave up after %d statements hung inside the engine (see evidence.inconclusive)\n", c22WatchdogFired)
+		defer t.Fatalf("INCONCLUSIVE")
+	}
 	r.Extra("seconds_spent_minimising_and_classifying_violations", reportDur.Seconds())
 	_ = math.Pi
 }
